@@ -25,6 +25,8 @@ def norm_numbers(line):
 
 
 def same_output(exp_lines, got_text):
+    # one print() may write several physical lines
+    exp_lines = '\n'.join(exp_lines).split('\n') if exp_lines else []
     got = got_text.split('\n')
     if got and got[-1] == '':
         got.pop()
